@@ -1,1 +1,193 @@
 //! Verification hooks: asmopt (see mod.rs).
+//!
+//! Everything in this file only exists with the cargo feature `fuellabs_sway_verif`.
+//!
+//! * [`skip_optimize`]: with the environment variable `SWAY_VERIF_NO_ASM_OPT=1`
+//!   `AbstractInstructionSet::optimize` returns its input unchanged (call-site guard in
+//!   `asm_generation/fuel/optimizations/mod.rs`). Unset: nothing changes.
+//! * [`run_pass`]: each individual abstract-instruction optimisation, and the whole `optimize`,
+//!   on an op list given in the abstract text form of [`super::regalloc`].
+//! * [`observe`]: with `SWAY_VERIF_ASMOPT_DUMP=<dir>` every debug-level (`Opt0`) invocation of
+//!   `optimize` inside a real compilation records, for each pass, the op list before and after
+//!   that pass (the passes are re-run on a clone; the compilation itself is not affected).
+//!
+//! # Text form
+//!
+//! The one of [`super::regalloc`] with two refinements of the `kind` field that
+//! `remove_redundant_ops` depends on: `other.MCP.0` = `MCP` whose length operand is `$zero`
+//! (`other.MCP` otherwise), `other.MCPI.<imm>` = `MCPI` with its immediate.
+use super::regalloc::{op_text, label_table, Namer, OpList};
+use crate::{
+    asm_generation::fuel::{
+        compiler_constants, data_section::DataSection,
+        VerifAbstractInstructionSet as AbstractInstructionSet,
+    },
+    asm_lang::{ConstantRegister, Op, VirtualImmediate12, VirtualOp, VirtualRegister},
+    OptLevel,
+};
+use either::Either;
+
+/// `SWAY_VERIF_NO_ASM_OPT=1`: `AbstractInstructionSet::optimize` is the identity.
+pub(crate) fn skip_optimize() -> bool {
+    std::env::var_os("SWAY_VERIF_NO_ASM_OPT").is_some_and(|v| v == "1")
+}
+
+/// Names of the passes accepted by [`run_pass`], in the order `optimize` applies them, followed
+/// by the two levels of the whole `optimize`.
+pub const PASSES: [&str; 9] = [
+    "constidx",
+    "constprop",
+    "dce",
+    "cfg",
+    "seqjump",
+    "moves",
+    "ops",
+    "optimize0",
+    "optimize1",
+];
+
+fn kind_refined(op: &Op, plain: String) -> String {
+    let zero = VirtualRegister::Constant(ConstantRegister::Zero);
+    let refined = match &op.opcode {
+        Either::Left(VirtualOp::MCP(_, _, len)) if *len == zero => Some("other.MCP.0".to_string()),
+        Either::Left(VirtualOp::MCPI(_, _, imm)) => Some(format!("other.MCPI.{}", imm.value())),
+        _ => None,
+    };
+    match (refined, plain.find(':')) {
+        (Some(k), Some(p)) => format!("{k}{}", &plain[p..]),
+        _ => plain,
+    }
+}
+
+/// Abstract text of `ops` (see module doc), registers named by `nm`.
+pub(crate) fn ops_text(ops: &[Op], nm: &Namer) -> String {
+    if ops.is_empty() {
+        return "-".into();
+    }
+    let labels = label_table(ops);
+    ops.iter()
+        .enumerate()
+        .map(|(ix, op)| kind_refined(op, op_text(op, ix, ops, &labels, nm, false)))
+        .collect::<Vec<_>>()
+        .join("|")
+}
+
+/// Real ops from the text form (constructor of [`OpList::from_text`] plus `other.MCPI.<imm>`).
+pub fn from_text(text: &str) -> Result<OpList, String> {
+    let text = text.trim();
+    if text == "-" || text.is_empty() {
+        return OpList::from_text(text);
+    }
+    let mut ops = Vec::new();
+    for t in text.split('|') {
+        let kind = t.split(':').next().unwrap_or("");
+        let k: Vec<&str> = kind.split('.').collect();
+        if k.len() >= 2 && k[0] == "other" && k[1] == "MCPI" {
+            let imm: u64 = k.get(2).and_then(|s| s.parse().ok()).unwrap_or(0);
+            let rest = t.find(':').map(|p| &t[p..]).unwrap_or("");
+            let as_mcp = OpList::from_text(&format!("other.MCP{rest}"))?;
+            match as_mcp.ops.into_iter().next().map(|o| o.opcode) {
+                Some(Either::Left(VirtualOp::MCP(a, b, _))) => ops.push(Op {
+                    opcode: Either::Left(VirtualOp::MCPI(
+                        a,
+                        b,
+                        VirtualImmediate12::new(imm.min(compiler_constants::TWELVE_BITS)),
+                    )),
+                    comment: String::new(),
+                    owning_span: None,
+                }),
+                _ => return Err(format!("bad op {t}")),
+            }
+        } else {
+            ops.extend(OpList::from_text(t)?.ops);
+        }
+    }
+    Ok(OpList { ops })
+}
+
+/// The op list before and after one pass, both named by the same [`Namer`] (built from both).
+#[derive(Debug, Clone, Default)]
+pub struct PassReport {
+    pub before: String,
+    pub after: String,
+}
+
+fn apply(pass: &str, set: AbstractInstructionSet, ds: &DataSection) -> Result<AbstractInstructionSet, String> {
+    fn log_nothing(_: &str) {}
+    Ok(match pass {
+        "constidx" => set.const_indexing_aggregates_function(ds),
+        "constprop" => set.constant_propagate(log_nothing),
+        "dce" => set.dce(),
+        "cfg" => set.simplify_cfg(),
+        "seqjump" => set.remove_sequential_jumps(),
+        "moves" => set.remove_redundant_moves(),
+        "ops" => set.remove_redundant_ops(log_nothing),
+        "optimize0" => set.optimize(ds, OptLevel::Opt0),
+        "optimize1" => set.optimize(ds, OptLevel::Opt1),
+        other => return Err(format!("unknown pass {other}")),
+    })
+}
+
+fn report(before: &[Op], after: &[Op]) -> PassReport {
+    let all: Vec<Op> = before.iter().chain(after.iter()).cloned().collect();
+    let nm = Namer::for_ops(&all);
+    PassReport {
+        before: ops_text(before, &nm),
+        after: ops_text(after, &nm),
+    }
+}
+
+/// Runs the real pass `pass` (one of [`PASSES`]) on `ops` with an empty data section.
+/// May panic exactly where the compiler would (e.g. a jump to a label that does not exist).
+pub fn run_pass(pass: &str, ops: &OpList) -> Result<PassReport, String> {
+    let set = AbstractInstructionSet {
+        function: None,
+        ops: ops.ops.clone(),
+    };
+    let out = apply(pass, set, &DataSection::default())?;
+    Ok(report(&ops.ops, &out.ops))
+}
+
+/// Text of `ops` in the refined form (registers ranked within this list).
+pub fn text(ops: &OpList) -> String {
+    ops_text(&ops.ops, &Namer::for_ops(&ops.ops))
+}
+
+static DUMP_SEQ: std::sync::atomic::AtomicUsize = std::sync::atomic::AtomicUsize::new(0);
+
+/// Called at the top of `AbstractInstructionSet::optimize`. With `SWAY_VERIF_ASMOPT_DUMP=<dir>`
+/// and level `Opt0`: runs the seven passes on a clone, in the order `optimize` does, and writes
+/// `<dir>/asmopt-<pid>-<seq>.txt` with one line `pass <name> <before> <after>` per pass.
+/// `SWAY_VERIF_ASMOPT_DUMP_MAX=<n>` skips op lists longer than `n` (default 400),
+/// `SWAY_VERIF_ASMOPT_DUMP_EVERY=<k>` keeps every `k`-th invocation only (default 1).
+pub(crate) fn observe(set: &AbstractInstructionSet, ds: &DataSection, level: OptLevel) {
+    let Some(dir) = std::env::var_os("SWAY_VERIF_ASMOPT_DUMP") else {
+        return;
+    };
+    if !matches!(level, OptLevel::Opt0) {
+        return;
+    }
+    let num = |name: &str, default: usize| -> usize {
+        std::env::var(name).ok().and_then(|v| v.parse().ok()).unwrap_or(default)
+    };
+    let seq = DUMP_SEQ.fetch_add(1, std::sync::atomic::Ordering::SeqCst);
+    if set.ops.len() > num("SWAY_VERIF_ASMOPT_DUMP_MAX", 400)
+        || seq % num("SWAY_VERIF_ASMOPT_DUMP_EVERY", 1).max(1) != 0
+    {
+        return;
+    }
+    let mut cur = set.clone();
+    let mut out = String::new();
+    for pass in &PASSES[..7] {
+        let before = cur.ops.clone();
+        cur = match apply(pass, cur, ds) {
+            Ok(s) => s,
+            Err(_) => return,
+        };
+        let r = report(&before, &cur.ops);
+        out.push_str(&format!("pass {pass} {} {}\n", r.before, r.after));
+    }
+    let path = std::path::Path::new(&dir).join(format!("asmopt-{}-{seq:06}.txt", std::process::id()));
+    let _ = std::fs::create_dir_all(&dir);
+    let _ = std::fs::write(path, out);
+}
